@@ -1,6 +1,7 @@
 import SemantivaModel.Driver.C01
 import SemantivaModel.Driver.C02
 import SemantivaModel.Driver.C03
+import SemantivaModel.Driver.C04
 import SemantivaModel.Driver.C06
 import SemantivaModel.Driver.C08
 import SemantivaModel.Driver.C11
@@ -41,6 +42,8 @@ def dispatch (st : DState) (j : Json) : Except String (DState × Json) := do
     pure (st, ← C03.handle st.c01 m j)
   else if m.startsWith "c02." then
     pure (st, ← C02.handle m j)
+  else if m.startsWith "c04." then
+    pure (st, ← C04.handle m j)
   else if m.startsWith "c06." then
     pure (st, ← C06.handle m j)
   else throw s!"unknown model op {m}"
